@@ -55,7 +55,7 @@ def parse_params(
         return
     argnum = -1
     # Iterate over function's params.
-    for param_name in signature.parameters:
+    for param_name, param in signature.parameters.items():
         # Increment argument numbers. This is
         # for positional arguments.
         argnum += 1
@@ -63,11 +63,17 @@ def parse_params(
         annot = type_hints.get(param_name)
         if annot is None:
             continue
+        if param.kind in (param.VAR_POSITIONAL, param.VAR_KEYWORD):
+            # Variadic parameters collect the leftovers,
+            # the annotation describes every one of them.
+            _parse_variadic(param, annot, argnum, signature, message)
+            continue
         # Value from incoming message.
         value = None
         logger.debug("Trying to parse %s as %s", param_name, annot)
         # Check if we have positional arguments in passed message.
-        if argnum < len(message.args):
+        # Keyword-only parameters are never filled from them.
+        if param.kind != param.KEYWORD_ONLY and argnum < len(message.args):
             # Get positional argument.
             value = message.args[argnum]
             if value is None:
@@ -99,3 +105,39 @@ def parse_params(
                     exc,
                     exc_info=True,
                 )
+
+
+def _parse_variadic(
+    param: inspect.Parameter,
+    annot: Any,
+    argnum: int,
+    signature: inspect.Signature,
+    message: TaskiqMessage,
+) -> None:
+    """
+    Parses values collected by `*args` or `**kwargs` parameter.
+
+    :param param: the variadic parameter.
+    :param annot: annotation of every collected value.
+    :param argnum: position of the parameter in the signature.
+    :param signature: original function's signature.
+    :param message: incoming message.
+    """
+    target: Any = message.args
+    keys: Any = range(argnum, len(message.args))
+    if param.kind == param.VAR_KEYWORD:
+        target = message.kwargs
+        keys = [key for key in message.kwargs if key not in signature.parameters]
+    for key in keys:
+        if target[key] is None:
+            continue
+        try:
+            target[key] = parse_obj_as(annot, target[key])
+        except (ValueError, RuntimeError) as exc:
+            logger.warning(
+                "Can't parse argument %s for task %s. Reason: %s",
+                key,
+                message.task_name,
+                exc,
+                exc_info=True,
+            )
